@@ -53,7 +53,7 @@ DESCRIPTION = {
     ],
     "required_probes": {
         "quick": ["two_defaults_in_flight", "import_time_default_differs", "env_flip_during_scoped", "history_s1_s2_none", "mechanism_env_after_import",
-                  "mechanism_scoped", "mechanism_preimport", "no_default_placeholder", "retry_after_failed_evaluation"],
+                  "mechanism_scoped", "mechanism_preimport", "no_default_placeholder", "retry_after_failed_evaluation", "insertion_sweep"],
         "thorough": ["two_defaults_in_flight", "import_time_default_differs", "env_flip_during_scoped", "history_s1_s2_none"],
     },
 }
@@ -192,6 +192,11 @@ def run_one(spec: dict) -> dict:
 
     if spec.get("schedule") is not None:
         chooser = ReplayChooser(spec["schedule"])
+    elif spec.get("insert_at") is not None:
+        from ..sched import InsertAtChooser
+
+        ia = spec["insert_at"]
+        chooser = InsertAtChooser(ia["victim"], ia["k"] if ia["k"] >= 0 else 10 ** 9, ia["intruder"], ia.get("prefix", 0))
     else:
         chooser = make_chooser(spec["sched"], stream(spec["seed"], "sched"), horizon=2000)
     sched = Scheduler(chooser, max_steps=3_000_000, hang_s=150.0)
@@ -316,12 +321,20 @@ def run_one(spec: dict) -> dict:
             set_env(pre)
         sched.spawn("operator", op_body, ident=5900)
 
-    if _tracer is not None:
-        _tracer.uninstall()
-        _tracer = None
     if spec.get("line"):
-        _tracer = LineTracer(sched, [cfgmod, models_mod], granularity=spec.get("gran", "line"))
-        _tracer.install()
+        gran = spec.get("gran", "line")
+        # the tracer stays installed across the runs of one child (re-arming sys.monitoring thousands of times is
+        # slow); it is re-installed only when the granularity changes
+        if _tracer is not None and _tracer.granularity != gran:
+            _tracer.uninstall()
+            _tracer = None
+        if _tracer is None:
+            _tracer = LineTracer(sched, [cfgmod, models_mod], granularity=gran)
+            _tracer.install()
+        _tracer.sched = sched
+        _tracer.enabled = True
+    elif _tracer is not None:
+        _tracer.enabled = False
     try:
         sched.run()
     finally:
@@ -339,6 +352,7 @@ def run_one(spec: dict) -> dict:
     if pre:
         faults["preimport_env"] = 1
     rr = {
+        "victim_yields": getattr(sched.chooser, "count", None),
         "verdict": "violation" if viol[0] else "ok",
         "digest": short([pre, [[(s["tpl"], s["S"], s["mech"]) for s in p] for p in spec["threads"]], spec.get("operator")], 24),
         "line_digest": sched.trace_digest.hexdigest()[:24],
@@ -358,10 +372,54 @@ def run_one(spec: dict) -> dict:
     return rr
 
 
+SMALL = ["from_item", "from_item_legacy", "insert_select", "insert_select_legacy", "ctas", "update_const", "insert_values", "create_like",
+         "mixed_ctas_qualified_source", "swap_snowflake", "vertica_swap_partitions", "vertica_swap_partitions_legacy", "drop_after_write", "cte_shadow_legacy"]
+
+
+def run_sweep(spec: dict) -> dict:
+    """Systematic single insertion: thread 1's whole analysis (under its own default) is inserted at EVERY yield
+    point (source line / function return, or bytecode instruction, of config.py and core/models.py) of thread 0's."""
+    k, total, steps, nsub, first = -1, None, 0, 0, None
+    while total is None or k < total:
+        sp = {kk: v for kk, v in spec.items() if kk != "isweep"}
+        sp["insert_at"] = dict(spec["isweep"], k=k)
+        r = run_one(sp)
+        nsub += 1
+        steps += r["steps"]
+        if total is None:
+            total = min(r.get("victim_yields") or 0, 120)
+            first = r
+        if r["verdict"] == "violation":
+            r["violation"]["message"] += f" [systematic insertion: thread 1's analysis inserted at yield point {k} of {total} of thread 0's]"
+            r["steps"] = steps
+            if r.get("spec"):
+                r["spec"].pop("insert_at", None)
+                r["spec"]["isweep"] = spec["isweep"]
+            return r
+        k += 1
+    first["steps"] = steps
+    first["probes"] = dict(first["probes"], insertion_sweep=1)
+    first["extra"] = dict(first.get("extra") or {}, sweep_subruns=nsub)
+    first["digest"] = short(["sweep", spec["threads"], spec["isweep"], spec.get("gran")], 24)
+    first["log_digest"] = digest(["sweep", first["log_digest"], total])
+    return first
+
+
+def gen_sweep(seed) -> dict:
+    g = stream(seed, "gen-sweep")
+    s1, s2 = g.sample(SCHEMAS, 2)
+    pre = g.choice([None, None, "imp"])
+    follow = {"tpl": g.choice(SMALL), "S": g.choice([s1, s2]), "mech": "scoped"}
+    return {"seed": seed, "pre_env": ({ENVVAR: pre} if pre else {}), "hash_seed": 0,
+            "threads": [[{"tpl": g.choice(SMALL), "S": s1, "mech": "scoped"}, follow], [{"tpl": g.choice(SMALL), "S": s2, "mech": "scoped"}]],
+            "operator": [], "sched": "sticky", "line": True, "gran": "line",
+            "isweep": {"victim": 0, "intruder": 1, "prefix": 0}}
+
+
 def execute(arg):
     runs = []
     for i, spec in enumerate(arg["specs"]):
-        r = run_one(spec)
+        r = run_sweep(spec) if spec.get("isweep") else run_one(spec)
         if i == 0 and r["verdict"] == "ok":
             r["sample"] = {"pre_env": spec.get("pre_env"), "threads": [[{k: s[k] for k in ("tpl", "S", "mech")} for s in p] for p in spec["threads"]],
                            "operator": spec.get("operator"), "sched": spec.get("sched")}
@@ -498,6 +556,7 @@ def search(pool, tier: str, seed: int, deadline: float, agg: Agg) -> None:
     specs = sweep()
     n = {"quick": 2000, "thorough": 40000}[tier]
     specs += [gen(master.randrange(2 ** 48)) for _ in range(n)]
+    specs += [gen_sweep(master.randrange(2 ** 48)) for _ in range({"quick": 10, "thorough": 1000}[tier])]
     # group by zygote key, blocks of 4
     by = {}
     for s in specs:
